@@ -425,6 +425,14 @@ class MatEval:
             return self.ev(f, e.args[0], env)
         if cn in ("np.identity", "np.eye"):
             return Val("mat", A.ident())
+        if cn in ("np.sort", "np.flip", "np.roll", "sorted", "np.argsort") and e.args:
+            # re-ordering the entries of a vector: a different (opaque) diagonal unless proven otherwise
+            v = self.ev(f, e.args[0], env)
+            if v.kind == "mat":
+                nm = f"{cn.split('.')[-1]}<{self.alg.simplify(v.v)!r}>"
+                if v.diagvec:
+                    self.alg.sym.add(nm)
+                return Val("mat", A.atom(nm), diagvec=v.diagvec)
         if cn in ("np.outer",) and len(e.args) == 2:
             # outer product of two (column) vectors: a b^T
             a = self._mat(f, self.ev(f, e.args[0], env))
